@@ -614,7 +614,7 @@ def rule_breakers(draw):
     text = printer.to_text(program)
     kind = draw(st.sampled_from(
         ['break', 'break', 'return', 'assign-macro', 'redefine-macro',
-         'redefine-routine', 'redefine-across-kinds',
+         'redefine-routine', 'redefine-across-kinds', 'redefine-builtin',
          'undefined-name',
          'nested-routine', 'missing-end', 'unbalanced', 'bad-pattern',
          'undefined-call']))
@@ -666,6 +666,21 @@ def rule_breakers(draw):
             ('define QQ begin wait end', 'define QQ 5')]))
         return (first + '\n' + text + '\n' + second,
                 'name defined twice (macro and routine)')
+    if kind == 'redefine-builtin':
+        # the built-in functions are routines that are already defined,
+        # whatever was done to the name in between
+        name = draw(st.sampled_from(['trunc', 'floor', 'ceil', 'round',
+                                     'sqrt', 'cycle', 'sin', 'random']))
+        before = draw(st.sampled_from(
+            ['', 'assign qq_v [{} 2]'.format(name) if name != 'random'
+             else 'assign qq_v [random 1 2]']))
+        between = draw(st.sampled_from(
+            ['', 'assign {} 0'.format(name),
+             'repeat with {} from 1 to 2 wait'.format(name),
+             'repeat all as {} wait'.format(name)]))
+        return ('\n'.join([before, text, between,
+                           'define {} with a begin return 99 end'.format(
+                               name)]), 'built-in function defined again')
     if kind == 'redefine-routine':
         # a routine cannot be defined twice, whatever was done to its name
         # in between
